@@ -25,8 +25,21 @@ regenerated table; sound for all paths by Lemmas/LocksSound.lean):
 All sender lists share one skeleton mutex name, so (1)/(2) also forbid holding two list mutexes at
 once (stronger than needed). `addressTransactions.nonces` is not in the guard table: `Size()` reads it
 without the list mutex (its writers hold the pool write lock *and* the list mutex, its readers one of
-the two — not expressible as a single guard). Calls into pkg/event (`t.events.*`) are outside this
-table: the emitter has its own mutex and is covered by C20.
+the two — not expressible as a single guard).
+
+Calls that LEAVE the package are not dropped: skelgen (group field `external`) emits every call of a
+method of the event emitter (`t.events.*`: Publish / Emit send on unbuffered subscriber channels, the
+other methods wait for the emitter mutex), of the application interface `ABI` and of the network
+interface `p2pConnection` as `blockingCall "Type.method"` — a possibly blocking operation, exactly
+like a channel operation for criterion (3). On the CURRENT source criterion (3) does not hold as such:
+`Add` calls `ABI.VerifyTransaction` (through `verifyTransactions`) and `p2pConnection.Publish` with the
+pool write lock held (`C14_gen_blocking_calls_under_pool_lock` — the precise set, visible as a fact).
+Criterion (3) is therefore stated with exactly these two exceptions (`blockingOnly`): any OTHER possibly
+blocking operation reached with the pool mutex held — `EventEmitter.Publish` moved into `Add`, a channel
+send, a `Wait` — and any blocking operation at all under a list mutex breaks
+`C14_gen_no_blocking_under_lock` / `C14_gen_blocking_calls_under_pool_lock`. Deadlock freedom is proved
+for the table in which the two operations are ordinary calls that return (`cfgE`), as for
+`Peer.Disconnect` in C17.
 -/
 import LiskVerif.Props.C20
 import LiskVerif.Gen.SkeletonsTxPool
@@ -52,6 +65,54 @@ def required : List String :=
    "addressTransactions.Get", "addressTransactions.GetProcessables", "addressTransactions.GetUnprocessables",
    "addressTransactions.Add", "addressTransactions.Remove", "addressTransactions.Promote",
    "addressTransactions.GetPromotable"]
+
+def poolMu : String := "TransactionPool.mutex"
+def listMu : String := "addressTransactions.mutex"
+/-- the call into the application (`t.abi.VerifyTransaction`, interface `ABI`) -/
+def abiVerify : String := "ABI.VerifyTransaction"
+/-- the gossip announcement (`t.conn.Publish`, interface `p2pConnection`) -/
+def connPublish : String := "p2pConnection.Publish"
+
+/-- the operations outside the package that the CURRENT source calls with the pool write lock held -/
+def underPoolLock : List String := [abiVerify, connPublish]
+
+/-- the regenerated configuration in which these two operations are ordinary calls that return -/
+def cfgE : Cfg :=
+  ⟨Gen.SkeletonsTxPool.table.eraseBlockingCalls underPoolLock, Gen.SkeletonsTxPool.guards, Gen.SkeletonsTxPool.lockOrder⟩
+
+def entryTableE : Table := cfgE.tbl.filter (fun e => Gen.SkeletonsTxPool.entries.contains e.1)
+
+/-- one skeleton with the two operations erased -/
+def erased (s : Skel) : Skel := Locks.eraseBlockingCalls underPoolLock 200 s
+
+/-- the entry points that reach `Add` (and with it the two operations under the pool lock) -/
+def reachAdd : List String := ["TransactionPool.Add", "TransactionPool.onTransactionAnnoucement"]
+
+/-- every possibly blocking operation (channel operation, `Wait`, `blockingCall`) the analysis sees
+with a non-empty lock set, together with that lock set — calls inlined, spawned goroutines included -/
+def blockedUnder (c : Cfg) (s : Skel) : List (String × Held) :=
+  match analyse c.tbl fuelDefault s with
+  | none => [("analysis failed", [])]
+  | some (obs, _) => obs.foldl (fun acc o =>
+      match o with
+      | (h, .block w) => if h.isEmpty then acc else insertD (w, h) acc
+      | _ => acc) []
+
+/-- what `Add` does under the pool write lock on the current source -/
+def addBlockedUnder : List (String × Held) :=
+  [(abiVerify, [(poolMu, Mode.W)]), (connPublish, [(poolMu, Mode.W)])]
+
+/-- some possibly blocking operation named `w` occurs in the skeleton (syntactic, nested) -/
+def mentionsBlocking (w : String) : Nat → List Act → Bool
+  | 0, _ => false
+  | _ + 1, [] => false
+  | n + 1, a :: k =>
+    (match a with
+     | .blockingCall f => f == w
+     | .go b => mentionsBlocking w n b
+     | .loop b => mentionsBlocking w n b
+     | .choice alts => alts.any (mentionsBlocking w n)
+     | _ => false) || mentionsBlocking w n k
 
 /-- number of lock acquisitions in a skeleton (syntactic, nested) -/
 def countAcq : Nat → List Act → Nat
@@ -86,10 +147,18 @@ theorem C14_gen_lock_order :
   decide +kernel
 
 /-- **all criteria on every regenerated entry point** — quantified over the regenerated table, so a
-method added to `TransactionPool` / `addressTransactions` is covered automatically. -/
+method added to `TransactionPool` / `addressTransactions` is covered automatically. Criteria (1), (2),
+(4) and well-formedness hold on the table as regenerated; criterion (3) holds with
+`ABI.VerifyTransaction` / `p2pConnection.Publish` taken as calls that return (`cfgE`), and on the
+table as regenerated these two under the pool mutex are the only exceptions to it. -/
 theorem C14_gen_all_entries_ok :
-    C14Locks.entryTable.all (fun e => criteria C14Locks.cfg e.2) = true := by
-  decide +kernel
+    C14Locks.entryTableE.all (fun e => criteria C14Locks.cfgE e.2) = true ∧
+    C14Locks.entryTableE.map (·.1) = Gen.SkeletonsTxPool.entries ∧
+    C14Locks.entryTable.all (fun e =>
+      wellFormed C14Locks.cfg e.2 && noReentrantAcquire C14Locks.cfg e.2 && lockOrderOk C14Locks.cfg e.2
+        && locksetOk C14Locks.cfg e.2
+        && blockingOnly C14Locks.cfg C14Locks.underPoolLock [C14Locks.poolMu] e.2) = true := by
+  refine ⟨?_, ?_, ?_⟩ <;> decide +kernel
 
 /-- the quantification is not vacuous: every method the property names is a regenerated entry point,
 and the helpers documented "the caller must hold t.mutex" are in the call table (inlined) -/
@@ -106,14 +175,59 @@ theorem C14_gen_no_unknown_construct :
     C14Locks.entryTable.all (fun e => wellFormed C14Locks.cfg e.2) = true := by
   decide +kernel
 
-/-- (3) in particular `reorg` waits for its workers only after releasing the read lock, and `Start`
-receives from the ticker holding nothing -/
+/-- **(3) no possibly blocking operation inside a critical section**, except the two calls `Add`
+makes on the current source: in every regenerated entry point a channel operation, a `Wait` or a call
+of a possibly blocking operation outside the package (any method of the event emitter, of `ABI`, of
+`p2pConnection`) happens with NO lock held, or it is `ABI.VerifyTransaction` / `p2pConnection.Publish`
+and exactly the pool mutex is held; nothing possibly blocking ever happens under a list mutex; every
+entry point that does not reach `Add` satisfies criterion (3) without exception — in particular
+`reorg` waits for its workers and calls the verifier only after releasing the read lock, `Start`
+receives from the ticker holding nothing, and `onTransactionAnnoucement` publishes `EventTransactionNew`
+to the subscribers AFTER `Add` has returned (`EventEmitter.Publish` sends on unbuffered channels: under
+the pool lock a subscriber that calls the pool, or that stopped receiving, would block the pool for ever). -/
 theorem C14_gen_no_blocking_under_lock :
-    C14Locks.entryTable.all (fun e => noBlockingInCS C14Locks.cfg e.2) = true := by
-  decide +kernel
+    C14Locks.entryTable.all (fun e =>
+      blockingOnly C14Locks.cfg C14Locks.underPoolLock [C14Locks.poolMu] e.2) = true ∧
+    C14Locks.entryTable.all (fun e => noBlockingHolding C14Locks.cfg C14Locks.listMu e.2) = true ∧
+    C14Locks.entryTable.all (fun e =>
+      C14Locks.reachAdd.contains e.1 || noBlockingInCS C14Locks.cfg e.2) = true ∧
+    C14Locks.entryTableE.all (fun e => noBlockingInCS C14Locks.cfgE e.2) = true := by
+  refine ⟨?_, ?_, ?_, ?_⟩ <;> decide +kernel
+
+/-- **FACT (visible, candidate finding): what `Add` calls with the pool write lock held.**
+On the CURRENT source the set of possibly blocking operations the analysis sees inside a critical
+section of `TransactionPool.Add` (calls inlined) is EXACTLY
+  * `ABI.VerifyTransaction` (`verifyTransactions` → `t.abi.VerifyTransaction`, a call into the
+    application) with exactly the pool mutex held for writing, and
+  * `p2pConnection.Publish` (`t.conn.Publish(t.ctx, …)`, the gossip announcement) likewise;
+the only other entry point with any such operation is `onTransactionAnnoucement`, through its call of
+`Add`; every other entry point has none. While either call runs, every other pool operation (`Get*`,
+`Remove`, the `reorg` round) waits: the pool is live only as long as the application answers and the
+p2p layer's `Publish` returns (stated as an assumption of `C14_gen_deadlock_free`). Criterion (3) as
+such is false for `Add`; `verifyTransactions` has a path calling the application and `Add` itself
+contains the `Publish` call. The emitter's `Publish` is NOT in the set: `onTransactionAnnoucement` calls it holding nothing.
+(This theorem breaks when the set changes in either direction — a new blocking call under the pool
+lock, or one of the two moved out of the critical section; in the second case shrink `underPoolLock`.) -/
+theorem C14_gen_blocking_calls_under_pool_lock :
+    C14Locks.blockedUnder C14Locks.cfg Gen.SkeletonsTxPool.TransactionPool_Add = C14Locks.addBlockedUnder ∧
+    C14Locks.blockedUnder C14Locks.cfg Gen.SkeletonsTxPool.TransactionPool_onTransactionAnnoucement
+      = C14Locks.addBlockedUnder ∧
+    C14Locks.entryTable.all (fun e =>
+      C14Locks.reachAdd.contains e.1 || (C14Locks.blockedUnder C14Locks.cfg e.2).isEmpty) = true ∧
+    noBlockingInCS C14Locks.cfg Gen.SkeletonsTxPool.TransactionPool_Add = false ∧
+    (∃ p ∈ bodyPaths Gen.SkeletonsTxPool.table 1 40 Gen.SkeletonsTxPool.TransactionPool_verifyTransactions,
+      p.contains (Prim.block C14Locks.abiVerify) = true) ∧
+    C14Locks.mentionsBlocking C14Locks.connPublish 50 Gen.SkeletonsTxPool.TransactionPool_Add = true ∧
+    C14Locks.mentionsBlocking "EventEmitter.Publish" 50
+      Gen.SkeletonsTxPool.TransactionPool_onTransactionAnnoucement = true ∧
+    C14Locks.mentionsBlocking "EventEmitter.Publish" 50 Gen.SkeletonsTxPool.TransactionPool_Add = false := by
+  refine ⟨?_, ?_, ?_, ?_, ?_, ?_, ?_, ?_⟩ <;> decide +kernel
 
 -- the individual methods named by the property (a failing one is reported by name)
-theorem C14_gen_add_ok : criteria C14Locks.cfg Gen.SkeletonsTxPool.TransactionPool_Add = true := by decide
+theorem C14_gen_add_ok :
+    criteria C14Locks.cfgE (C14Locks.erased Gen.SkeletonsTxPool.TransactionPool_Add) = true ∧
+    blockingOnly C14Locks.cfg C14Locks.underPoolLock [C14Locks.poolMu]
+      Gen.SkeletonsTxPool.TransactionPool_Add = true := by decide +kernel
 theorem C14_gen_remove_ok :
     criteria C14Locks.cfg Gen.SkeletonsTxPool.TransactionPool_Remove = true ∧
     criteria C14Locks.cfg Gen.SkeletonsTxPool.TransactionPool_remove = true := by decide
@@ -126,7 +240,9 @@ theorem C14_gen_reorg_ok :
     criteria C14Locks.cfg Gen.SkeletonsTxPool.TransactionPool_reorg = true ∧
     criteria C14Locks.cfg Gen.SkeletonsTxPool.TransactionPool_Start = true := by decide
 theorem C14_gen_announcement_ok :
-    criteria C14Locks.cfg Gen.SkeletonsTxPool.TransactionPool_onTransactionAnnoucement = true := by decide
+    criteria C14Locks.cfgE (C14Locks.erased Gen.SkeletonsTxPool.TransactionPool_onTransactionAnnoucement) = true ∧
+    blockingOnly C14Locks.cfg C14Locks.underPoolLock [C14Locks.poolMu]
+      Gen.SkeletonsTxPool.TransactionPool_onTransactionAnnoucement = true := by decide +kernel
 theorem C14_gen_txlist_ok :
     [Gen.SkeletonsTxPool.addressTransactions_Get, Gen.SkeletonsTxPool.addressTransactions_Size,
      Gen.SkeletonsTxPool.addressTransactions_GetProcessables,
@@ -147,19 +263,21 @@ theorem C14_gen_locked_helpers_take_no_pool_lock :
 
 /-! ## deadlock and race freedom for any number of goroutines -/
 
-/-- **Deadlock freedom of the pool** (instance of `C20_criteria_imply_deadlock_free`): any number of
+/-- **Deadlock freedom of the pool** (instance of `C20_criteria_imply_deadlock_free`),
+`ABI.VerifyTransaction` and `p2pConnection.Publish` being calls that return: any number of
 goroutines, each running a path of a regenerated txpool entry point (calls inlined to any depth, loops
 iterated up to any bound `u`) or of a goroutine spawned by one (the `reorg` workers), under any
 schedule and Go `sync.RWMutex` semantics with writer preference: every reachable state either lets some
 thread take a step that needs no communication partner, or has every thread finished or parked at a
-communication (ticker / `Wait`) holding no lock and requesting none; no reachable state is deadlocked. -/
+communication (ticker / `Wait` / a call of the emitter, the application or the network) holding no lock
+and requesting none; no reachable state is deadlocked. -/
 theorem C14_gen_deadlock_free (u : Nat) (ps : List Path)
-    (hps : ∀ p ∈ ps, ∃ e ∈ C14Locks.entryTable, IsThreadPath Gen.SkeletonsTxPool.table u e.2 p)
+    (hps : ∀ p ∈ ps, ∃ e ∈ C14Locks.entryTableE, IsThreadPath C14Locks.cfgE.tbl u e.2 p)
     (st : State) (hr : Reachable (initState ps) st) :
     deadlocked st = false ∧ (quiescent st = true ∨ ∃ i, canStepInternal st i = true) := by
-  have hall := C14_gen_all_entries_ok
+  have hall := C14_gen_all_entries_ok.1
   simp only [List.all_eq_true] at hall
-  have hprog := C20_criteria_imply_deadlock_free C14Locks.cfg u (C14Locks.entryTable.map (·.2))
+  have hprog := C20_criteria_imply_deadlock_free C14Locks.cfgE u (C14Locks.entryTableE.map (·.2))
     (by
       intro s hs
       obtain ⟨e, he, rfl⟩ := List.mem_map.mp hs
@@ -178,11 +296,11 @@ theorem C14_gen_deadlock_free (u : Nat) (ps : List Path)
 hypotheses no two goroutines are ever simultaneously about to perform conflicting accesses to
 `allTransactions`, `perAccount`, `feePriorityQueue` or to a list's `transactions` / `processables`. -/
 theorem C14_gen_race_free (u : Nat) (ps : List Path)
-    (hps : ∀ p ∈ ps, ∃ e ∈ C14Locks.entryTable, IsThreadPath Gen.SkeletonsTxPool.table u e.2 p)
+    (hps : ∀ p ∈ ps, ∃ e ∈ C14Locks.entryTableE, IsThreadPath C14Locks.cfgE.tbl u e.2 p)
     (st : State) (hr : Reachable (initState ps) st) (i j : Nat) : raceAt st i j = false := by
-  have hall := C14_gen_all_entries_ok
+  have hall := C14_gen_all_entries_ok.1
   simp only [List.all_eq_true] at hall
-  apply C20_lockset_implies_race_free C14Locks.cfg u (C14Locks.entryTable.map (·.2)) _ ps _ st hr
+  apply C20_lockset_implies_race_free C14Locks.cfgE u (C14Locks.entryTableE.map (·.2)) _ ps _ st hr
   · intro s hs
     obtain ⟨e, he, rfl⟩ := List.mem_map.mp hs
     have hc := hall e he
@@ -191,6 +309,48 @@ theorem C14_gen_race_free (u : Nat) (ps : List Path)
   · intro p hp
     obtain ⟨e, he, hpath⟩ := hps p hp
     exact ⟨e.2, List.mem_map.mpr ⟨e, he, rfl⟩, hpath⟩
+
+/-! ## a subscriber notification under the pool lock (the class of change criterion (3) excludes) -/
+
+namespace C14Locks.Notify
+
+/-- `Add` publishing `EventTransactionNew` itself, before its deferred unlock runs (what skelgen emits
+when `t.events.Publish(...)` is moved from `onTransactionAnnoucement` into `Add`): the regenerated
+skeleton of `Add` with the emitter call placed before the final `return` -/
+def add : Skel :=
+  Gen.SkeletonsTxPool.TransactionPool_Add.dropLast ++ [.blockingCall "EventEmitter.Publish", .ret]
+
+def table : Table := ("TransactionPool.Add", add) :: Gen.SkeletonsTxPool.table
+def cfg : Cfg := ⟨table, Gen.SkeletonsTxPool.guards, Gen.SkeletonsTxPool.lockOrder⟩
+
+/-- the publishing `Add`: write lock, the emitter's send to the subscriber, unlock -/
+def addPath : Path := [.acq poolMu, .block "EventEmitter.Publish", .rel poolMu]
+/-- the subscriber's handler calls `pool.Get` before it receives the next event -/
+def subscriberPath : Path := [.racq poolMu, .rrel poolMu, .block "subscriber receives"]
+
+end C14Locks.Notify
+
+/-- such an `Add` is rejected by the obligation above: `EventEmitter.Publish` is reached with the pool
+write lock held and is not one of the two admitted operations, for `Add` and for every caller of it
+(the regenerated `Add` passes the same check) -/
+theorem C14_gen_notify_under_lock_rejected :
+    blockingOnly C14Locks.Notify.cfg C14Locks.underPoolLock [C14Locks.poolMu] C14Locks.Notify.add = false ∧
+    blockingOnly C14Locks.Notify.cfg C14Locks.underPoolLock [C14Locks.poolMu]
+      Gen.SkeletonsTxPool.TransactionPool_onTransactionAnnoucement = false ∧
+    (C14Locks.blockedUnder C14Locks.Notify.cfg C14Locks.Notify.add).contains
+      ("EventEmitter.Publish", [(C14Locks.poolMu, Mode.W)]) = true ∧
+    blockingOnly C14Locks.cfg C14Locks.underPoolLock [C14Locks.poolMu]
+      Gen.SkeletonsTxPool.TransactionPool_Add = true := by
+  refine ⟨?_, ?_, ?_, ?_⟩ <;> decide +kernel
+
+/-- … and it does block the pool: `Add` holds the write lock and waits for the subscriber to receive,
+the subscriber's handler waits for the read lock (`pool.Get`) before it receives again — a reachable
+state in which no goroutine can take a step on its own, although neither is finished nor parked
+outside a critical section (the state the deadlock-freedom theorem excludes) -/
+theorem C14_gen_notify_under_lock_blocks_pool :
+    ∃ st, run (initState [C14Locks.Notify.addPath, C14Locks.Notify.subscriberPath]) [0, 0] = some st ∧
+      quiescent st = false ∧ (List.range st.length).all (fun i => !canStepInternal st i) = true := by
+  refine ⟨_, rfl, ?_, ?_⟩ <;> decide
 
 /-! ## the original code in the same skeleton language (counterexample) -/
 
